@@ -16,7 +16,7 @@ import (
 // component s_xdsauth (C43, C44; T2): the real xdsclient.XDSClient (authority, xdsChannel,
 // adsStreamImpl, both callback serializers) over a scripted, harness-paced transport.
 //
-//	cfg <n> <ignbits> <mon>        first op: 1..3 servers, ignore_resource_deletion bit per server;
+//	cfg <n> <ignbits> <mon> [boff] first op: 1..3 servers (boff: authority "b" gets servers boff.. of the list), ignore_resource_deletion bit per server;
 //	                               <mon> selects the monitor of the Lean driver (c43 | c44)
 //	watch <T|U|X> <name> <wid>     T: AllResourcesRequiredInSotW, U: not, X: unknown type; names b_<id> belong to a
 //	                               second authority "b" (xdstp://b/<type>/<id>) with the same server list: the two
@@ -225,6 +225,7 @@ type xaCase struct {
 	release func()
 	closed  bool
 	nonce   int
+	boff    int // first top-level server of authority b's own server list
 }
 
 func init() {
@@ -388,20 +389,21 @@ func (c *xaCase) snapshot() string {
 		sort.Strings(ws)
 		out += fmt.Sprintf(" s%d=%d/%d/%s%s/u%d/x%s/view=%s/ws=%s", i, s.builds, s.streams, state, flags, unread, joinOr(refs, "+"), view, joinOr(ws, "+"))
 	}
-	return out + " " + c.authSnapshot("", "") + " " + c.authSnapshot("b", "b")
+	return out + " " + c.authSnapshot("", "", 0) + " " + c.authSnapshot("b", "b", c.boff)
 }
 
 // authSnapshot prints one authority: active server, servers it holds a channel reference to, resource states.
-func (c *xaCase) authSnapshot(name, pre string) string {
+// Server indices are printed as indices into the top-level server list (off = where this authority's list starts).
+func (c *xaCase) authSnapshot(name, pre string, off int) string {
 	a := xdsclient.VerifXAAuthStateOf(c.client, name)
 	act := "-"
 	if a.Active >= 0 {
-		act = fmt.Sprint(a.Active)
+		act = fmt.Sprint(a.Active + off)
 	}
 	var open []string
 	for i, o := range a.Open {
 		if o {
-			open = append(open, fmt.Sprint(i))
+			open = append(open, fmt.Sprint(i+off))
 		}
 	}
 	var rs []string
@@ -436,7 +438,7 @@ func (c *xaCase) authSnapshot(name, pre string) string {
 		}
 		var ch []string
 		for _, x := range r.Chans {
-			ch = append(ch, fmt.Sprint(x))
+			ch = append(ch, fmt.Sprint(x+off))
 		}
 		v := r.Version
 		if v == "" {
@@ -486,11 +488,14 @@ func (c *xaCase) liveStream(s *xaServer) *xaStream {
 
 func (c *xaCase) Op(f []string) string {
 	if f[0] == "cfg" {
-		if c.client != nil || len(f) != 4 {
+		if c.client != nil || (len(f) != 4 && len(f) != 5) {
 			return "bad-op"
 		}
+		if len(f) == 5 {
+			c.boff = int(atoi64s(f[4]))
+		}
 		n := int(atoi64s(f[1]))
-		if n < 1 || n > 3 || len(f[2]) != n {
+		if n < 1 || n > 3 || len(f[2]) != n || c.boff < 0 || c.boff >= n {
 			return "bad-op"
 		}
 		xdsclient.VerifXASetStreamBackoff(func(int) time.Duration { return xaBackoff })
@@ -514,6 +519,11 @@ func (c *xaCase) Op(f []string) string {
 				sc.ServerFeature = xdsclient.ServerFeatureIgnoreResourceDeletion
 			}
 			cfg.Servers = append(cfg.Servers, sc)
+		}
+		// optional 5th field: authority "b" is configured with the top-level servers from index boff on, so that a
+		// fallback server of the top-level authority can be the primary of "b" (channels shared across different lists)
+		if c.boff > 0 {
+			cfg.Authorities = map[string]xdsclient.Authority{"b": {XDSServers: append([]xdsclient.ServerConfig(nil), cfg.Servers[c.boff:]...)}}
 		}
 		cl, err := xdsclient.New(cfg)
 		if err != nil {
